@@ -43,6 +43,13 @@ func linkedIPHandler(
 		r.SetURL(apiURL)
 		r.Out.Host = apiURL.Host
 
+		// Restore the headers set in ServeHTTP.  The reverse proxy removes the
+		// headers that the client has listed in its Connection header before
+		// calling Rewrite, so a client could otherwise strip them.
+		for _, name := range []string{httphdr.XConnectingIP, httphdr.XRequestID} {
+			r.Out.Header.Set(name, r.In.Header.Get(name))
+		}
+
 		// Make sure that all requests are marked with our user agent.
 		r.Out.Header.Set(httphdr.UserAgent, agdhttp.UserAgent())
 	}
